@@ -38,7 +38,138 @@ Proof. destruct v. unfold shunt_rel. tp_unfold. split; intros [E1 E2]; split; ns
 (* a matched through connection (V1 = V2, I1 = -I2) has S = [[0,1],[1,0]] *)
 Example through_is_S (Z0 : K) v : (V1 v = V2 v /\ I1 v = - I2 v) -> rel_S Z0 (Mat 0 1 1 0) v.
 Proof. destruct v. tp_unfold. intros [E1 E2]; split; nsatz. Qed.
+
+(* ---- converse of the cascade theorems: the product matrix allows NO port
+   state that the cascade does not (the intermediate port state is the one
+   the second two-port determines), so cascade and product are the same
+   relation, not merely an inclusion *)
+Theorem cascade_A_complete (Z0 : K) (a b : mat K) (v : port K) :
+  rel_A Z0 (mmul a b) v -> cascade (rel_A Z0 a) (rel_A Z0 b) v.
+Proof. destruct a as [a11 a12 a21 a22], b as [b11 b12 b21 b22], v as [v1 i1 v2 i2].
+  intros [E1 E2]. tp_unfold.
+  exists (b11 * v2 + b12 * (- i2)), (b21 * v2 + b22 * (- i2)).
+  repeat split; try reflexivity; nsatz. Qed.
+Theorem cascade_A_iff (Z0 : K) (a b : mat K) (v : port K) :
+  cascade (rel_A Z0 a) (rel_A Z0 b) v <-> rel_A Z0 (mmul a b) v.
+Proof. split; [apply cascade_A_spec | apply cascade_A_complete]. Qed.
+Theorem cascade_B_complete (Z0 : K) (a b : mat K) (v : port K) :
+  rel_B Z0 (mmul b a) v -> cascade (rel_B Z0 a) (rel_B Z0 b) v.
+Proof. destruct a as [a11 a12 a21 a22], b as [b11 b12 b21 b22], v as [v1 i1 v2 i2].
+  intros [E1 E2]. tp_unfold.
+  exists (a11 * v1 + a12 * i1), (a21 * v1 + a22 * i1).
+  repeat split; try reflexivity; nsatz. Qed.
+
+(* ---- the four port-wise interconnections (TwoPort.series / parallel /
+   hybrid / inverse_hybrid build Ser2 / Par2 / Hybrid2 / InverseHybrid2 by
+   ADDING the Z / Y / H / G matrices).  Spec: a port quantity that the
+   connection shares is common to both two-ports, the dual quantity adds. *)
+Definition conn (sV1 sI1 sV2 sI2 : bool) (R1 R2 : port K -> Prop) (v : port K) : Prop :=
+  exists p q : port K, R1 p /\ R2 q /\
+    (if sV1 then V1 p = V1 v /\ V1 q = V1 v else V1 p + V1 q = V1 v) /\
+    (if sI1 then I1 p = I1 v /\ I1 q = I1 v else I1 p + I1 q = I1 v) /\
+    (if sV2 then V2 p = V2 v /\ V2 q = V2 v else V2 p + V2 q = V2 v) /\
+    (if sI2 then I2 p = I2 v /\ I2 q = I2 v else I2 p + I2 q = I2 v).
+(* series-series: currents common, voltages add *)
+Definition series2 := conn false true false true.
+(* parallel-parallel: voltages common, currents add *)
+Definition parallel2 := conn true false true false.
+(* series input, parallel output *)
+Definition hybrid2 := conn false true true false.
+(* parallel input, series output *)
+Definition inverse_hybrid2 := conn true false false true.
+
+Ltac conn_fwd :=
+  let p := fresh "p" in let q := fresh "q" in
+  intros [[p1 p2 p3 p4] [[q1 q2 q3 q4] [[P1 P2] [[Q1 Q2] C]]]];
+  cbv [conn series2 parallel2 hybrid2 inverse_hybrid2] in C; tp_unfold;
+  repeat match goal with H : _ /\ _ |- _ => destruct H end; split; nsatz.
+
+Theorem series_Z_spec (Z0 : K) (a b : mat K) (v : port K) :
+  series2 (rel_Z Z0 a) (rel_Z Z0 b) v <-> rel_Z Z0 (madd a b) v.
+Proof. destruct a as [a11 a12 a21 a22], b as [b11 b12 b21 b22], v as [v1 i1 v2 i2]. split.
+  - conn_fwd.
+  - intros [E1 E2]. tp_unfold.
+    exists (Port (a11 * i1 + a12 * i2) i1 (a21 * i1 + a22 * i2) i2),
+           (Port (b11 * i1 + b12 * i2) i1 (b21 * i1 + b22 * i2) i2).
+    cbv [series2 conn]; tp_unfold. repeat split; try reflexivity; nsatz. Qed.
+Theorem parallel_Y_spec (Z0 : K) (a b : mat K) (v : port K) :
+  parallel2 (rel_Y Z0 a) (rel_Y Z0 b) v <-> rel_Y Z0 (madd a b) v.
+Proof. destruct a as [a11 a12 a21 a22], b as [b11 b12 b21 b22], v as [v1 i1 v2 i2]. split.
+  - conn_fwd.
+  - intros [E1 E2]. tp_unfold.
+    exists (Port v1 (a11 * v1 + a12 * v2) v2 (a21 * v1 + a22 * v2)),
+           (Port v1 (b11 * v1 + b12 * v2) v2 (b21 * v1 + b22 * v2)).
+    cbv [parallel2 conn]; tp_unfold. repeat split; try reflexivity; nsatz. Qed.
+Theorem hybrid_H_spec (Z0 : K) (a b : mat K) (v : port K) :
+  hybrid2 (rel_H Z0 a) (rel_H Z0 b) v <-> rel_H Z0 (madd a b) v.
+Proof. destruct a as [a11 a12 a21 a22], b as [b11 b12 b21 b22], v as [v1 i1 v2 i2]. split.
+  - conn_fwd.
+  - intros [E1 E2]. tp_unfold.
+    exists (Port (a11 * i1 + a12 * v2) i1 v2 (a21 * i1 + a22 * v2)),
+           (Port (b11 * i1 + b12 * v2) i1 v2 (b21 * i1 + b22 * v2)).
+    cbv [hybrid2 conn]; tp_unfold. repeat split; try reflexivity; nsatz. Qed.
+Theorem inverse_hybrid_G_spec (Z0 : K) (a b : mat K) (v : port K) :
+  inverse_hybrid2 (rel_G Z0 a) (rel_G Z0 b) v <-> rel_G Z0 (madd a b) v.
+Proof. destruct a as [a11 a12 a21 a22], b as [b11 b12 b21 b22], v as [v1 i1 v2 i2]. split.
+  - conn_fwd.
+  - intros [E1 E2]. tp_unfold.
+    exists (Port v1 (a11 * v1 + a12 * i2) (a21 * v1 + a22 * i2) i2),
+           (Port v1 (b11 * v1 + b12 * i2) (b21 * v1 + b22 * i2) i2).
+    cbv [inverse_hybrid2 conn]; tp_unfold. repeat split; try reflexivity; nsatz. Qed.
+
+(* ---- reciprocity is a property of the port relation, so every
+   representation must agree on it (TwoPortMixin.is_reciprocal tests
+   Z12 == Z21 and its comment names Y12 == Y21 and det A = 1;
+   is_bilateral tests det B = 1).  Lorentz/Tellegen form: for any two
+   admissible port states the cross powers agree.  Each representation's
+   matrix test is proved EQUIVALENT to it (the forward direction by
+   exhibiting two port states), hence, with conv_sound_X_Y, all the tests
+   agree on every two-port. *)
+Definition reciprocal (R : port K -> Prop) : Prop :=
+  forall v w, R v -> R w -> V1 v * I1 w + V2 v * I2 w = V1 w * I1 v + V2 w * I2 v.
+Ltac rec_bwd := intros E [v1 i1 v2 i2] [w1 j1 w2 j2] [P1 P2] [Q1 Q2]; tp_unfold; nsatz.
+Ltac rec_fwd H v w :=
+  let X := fresh "X" in
+  assert (X := H v w); tp_unfold;
+  let Y := fresh "Y" in
+  assert (Y := X ltac:(split; ring) ltac:(split; ring)); clear X; nsatz.
+Theorem reciprocal_Z (Z0 : K) (m : mat K) : reciprocal (rel_Z Z0 m) <-> m12 m = m21 m.
+Proof. destruct m as [a b c d]. unfold reciprocal. split.
+  - intros H. rec_fwd H (Port a 1 c 0) (Port b 0 d 1).
+  - tp_unfold. rec_bwd. Qed.
+Theorem reciprocal_Y (Z0 : K) (m : mat K) : reciprocal (rel_Y Z0 m) <-> m12 m = m21 m.
+Proof. destruct m as [a b c d]. unfold reciprocal. split.
+  - intros H. rec_fwd H (Port 1 a 0 c) (Port 0 b 1 d).
+  - tp_unfold. rec_bwd. Qed.
+Theorem reciprocal_H (Z0 : K) (m : mat K) : reciprocal (rel_H Z0 m) <-> m12 m = - m21 m.
+Proof. destruct m as [a b c d]. unfold reciprocal. split.
+  - intros H. rec_fwd H (Port a 1 0 c) (Port b 0 1 d).
+  - tp_unfold. rec_bwd. Qed.
+Theorem reciprocal_G (Z0 : K) (m : mat K) : reciprocal (rel_G Z0 m) <-> m12 m = - m21 m.
+Proof. destruct m as [a b c d]. unfold reciprocal. split.
+  - intros H. rec_fwd H (Port 1 a c 0) (Port 0 b d 1).
+  - tp_unfold. rec_bwd. Qed.
+Theorem reciprocal_A (Z0 : K) (m : mat K) : reciprocal (rel_A Z0 m) <-> det m = 1.
+Proof. destruct m as [a b c d]. unfold reciprocal. split.
+  - intros H. rec_fwd H (Port a c 1 0) (Port b d 0 (- (1))).
+  - tp_unfold. rec_bwd. Qed.
+Theorem reciprocal_B (Z0 : K) (m : mat K) : reciprocal (rel_B Z0 m) <-> det m = 1.
+Proof. destruct m as [a b c d]. unfold reciprocal. split.
+  - intros H. rec_fwd H (Port 1 0 a (- c)) (Port 0 1 b (- d)).
+  - tp_unfold. rec_bwd. Qed.
 End C08.
 Print Assumptions chain3_assoc.
 Print Assumptions cascade_A_spec.
 Print Assumptions cascade_B_spec.
+Print Assumptions cascade_A_iff.
+Print Assumptions cascade_B_complete.
+Print Assumptions series_Z_spec.
+Print Assumptions parallel_Y_spec.
+Print Assumptions hybrid_H_spec.
+Print Assumptions inverse_hybrid_G_spec.
+Print Assumptions reciprocal_Z.
+Print Assumptions reciprocal_Y.
+Print Assumptions reciprocal_H.
+Print Assumptions reciprocal_G.
+Print Assumptions reciprocal_A.
+Print Assumptions reciprocal_B.
